@@ -104,7 +104,15 @@ class HealSparseFits(object):
         else:
             hdu = self.fits_object[extension]
             if hdu.is_image:
-                return _image_bitpix2npy[hdu._bitpix]
+                dtype = np.dtype(_image_bitpix2npy[hdu._bitpix])
+                # FITS stores unsigned integers as signed integers offset by BZERO
+                # (and int8 as offset uint8); get the type of the scaled data.
+                bzero = getattr(hdu, '_orig_bzero', 0)
+                if dtype.kind == 'i' and bzero == 2**(8*dtype.itemsize - 1):
+                    dtype = np.dtype('u%d' % (dtype.itemsize))
+                elif dtype == np.uint8 and bzero == -128:
+                    dtype = np.dtype('i1')
+                return dtype
             else:
                 return hdu.data[0: 1].dtype
 
@@ -141,19 +149,37 @@ class HealSparseFits(object):
             # the full thing.
             hdu = self.fits_object[extension]
             if row_range is None:
-                return hdu.data.view(np.ndarray)
+                return self._get_astropy_data(extension).view(np.ndarray)
             elif col_range is None:
                 try:
                     return hdu.section[slice(row_range[0], row_range[1])].view(np.ndarray)
-                except AttributeError:
-                    return hdu.data[slice(row_range[0], row_range[1])].view(np.ndarray)
+                except (AttributeError, ValueError):
+                    return self._get_astropy_data(extension)[
+                        slice(row_range[0], row_range[1])].view(np.ndarray)
             else:
                 try:
                     return hdu.section[slice(col_range[0], col_range[1]),
                                        slice(row_range[0], row_range[1])].view(np.ndarray)
-                except AttributeError:
-                    return hdu.data[slice(col_range[0], col_range[1]),
-                                    slice(row_range[0], row_range[1])].view(np.ndarray)
+                except (AttributeError, ValueError):
+                    return self._get_astropy_data(extension)[
+                        slice(col_range[0], col_range[1]),
+                        slice(row_range[0], row_range[1])].view(np.ndarray)
+
+    def _get_astropy_data(self, extension):
+        """
+        Get the data of an extension with astropy.io.fits.
+
+        Images stored with BZERO/BSCALE (all unsigned integer types and int8)
+        cannot be memory mapped by astropy; in that case the file is re-opened
+        without memory mapping.
+        """
+        try:
+            return self.fits_object[extension].data
+        except ValueError:
+            self.fits_object.close()
+            self.fits_object = fits.open(self._filename, memmap=False, lazy_load_hdus=True,
+                                         mode='readonly')
+            return self.fits_object[extension].data
 
     def ext_is_image(self, extension):
         """
